@@ -65,6 +65,9 @@ def tlc(workdir, module, cfg, workers=1, timeout=900, simulate=None, extra=(), d
         cmd += ["-simulate", simulate]
     cmd += list(extra) + [module + ".tla"]
     env = dict(os.environ)
+    # TLC creates a directory tlc-<n> under java.io.tmpdir on every start and leaves it behind: keep it inside the scratch directory
+    jt = tempfile.mkdtemp(prefix="jt-", dir=workdir)
+    env["JAVA_TOOL_OPTIONS"] = (env.get("JAVA_TOOL_OPTIONS", "") + " -Djava.io.tmpdir=" + jt).strip()
     if deque:
         env["JAVA_TOOL_OPTIONS"] = (env.get("JAVA_TOOL_OPTIONS", "") +
                                     " -Dtlc2.tool.queue.IStateQueue=StateDeque").strip()
@@ -72,6 +75,7 @@ def tlc(workdir, module, cfg, workers=1, timeout=900, simulate=None, extra=(), d
     p = subprocess.run(cmd, cwd=workdir, env=env, capture_output=True, text=True)
     out = p.stdout + p.stderr
     shutil.rmtree(md, ignore_errors=True)
+    shutil.rmtree(jt, ignore_errors=True)
     shutil.rmtree(os.path.join(workdir, "states"), ignore_errors=True)
     res = {"rc": p.returncode, "out": out, "wall_s": time.time() - t0, "states": 0, "distinct": 0,
            "violated": None, "depth": 0}
